@@ -61,8 +61,8 @@ SPEC = {
     'timeout': {'quick': 300, 'thorough': 1800},
     'case_timeout': 120,
     'classify_crash': classify_crash,
-    'rule': 'every factor space with 2..3 factors of sizes 1..3 (quick) / 2..4 factors of sizes 1..4 (thorough), in every order; per shape 14 (12) seeded '
-            'histories (Trie, FasterTrie, FilterMap over each) of up to 60 (400) operations with stale / never-issued ids, duplicate keys, '
+    'rule': 'every factor space with 2..3 factors of sizes 1..3 (quick) / 2..4 factors of sizes 1..4 (thorough), in every order; per shape 120 (60) seeded '
+            'histories (Trie, FasterTrie, FilterMap over each) of up to 60 (400) operations, plus 300 (2000) histories on random shapes with 2..6 factors of sizes 1..5, with stale / never-issued ids, duplicate keys, '
             'erase-then-reinsert; one protocol line = one history; non-trivial = more than one operation; distinct by protocol line',
     'modelled': ['src/Factored/Utils/Trie.cpp (whole file incl. the cursor loop of applyFilters)', 'src/Factored/Utils/FasterTrie.cpp (whole file; shuffles as an oracle)',
                  'include/AIToolbox/Factored/Utils/FilterMap.hpp emplace/filter/size', 'include/AIToolbox/Utils/IndexMap.hpp forward iteration'],
